@@ -185,9 +185,104 @@ def main(tier):
     fails += extra_fail[0]
     ev += extra_fail[1]
     ok += extra_fail[1] - len(extra_fail[0])
+    hist = histories()
+    fails += hist[0]
+    ev += hist[1]
+    ok += hist[1] - len(hist[0])
     print(json.dumps({'evaluations': ev, 'distinct_nontrivial': ok, 'n_failures': len(fails), 'failures': fails[:30],
                       'failures_in_known_region_F5a': len(known), 'known_examples': known[:2],
                       'samples': [dict(src_shape=list(c[0]), chain=[[spec_str(i), bool(f)] for i, f in c[1]], depth=c[2], input_units=c[3], solver=c[4]) for c in cases[50:53]]}, default=str))
+
+
+def histories():
+    """index objects reused: (a) one promotes() call covering two inputs whose sources have different sizes,
+    (b) a second Problem.setup() after the source size changed; single level and two-level chains; negative indices,
+    open slices.  Oracle: NumPy indexing of the CURRENT source value."""
+    import openmdao.api as om
+    fails = []
+    n = 0
+    specs = [[-2, -1], slice(-3, None), slice(None, None, -1), [0, -1]]
+    for spec, chain2, how in itertools.product(specs, (None, slice(1, None), [-1]), ('connect', 'promotes')):
+        n += 1
+        seen = {}
+        desc = dict(history='re-setup after the source size changed 5 -> 8', src_indices=repr(spec), inner_src_indices=repr(chain2), via=how)
+        try:
+            def want(nsrc):
+                v = np.arange(1.0, nsrc + 1)[spec if not isinstance(spec, list) else np.array(spec)]
+                if chain2 is not None:
+                    v = v[chain2 if not isinstance(chain2, list) else np.array(chain2)]
+                return np.atleast_1d(v)
+
+            class Src(om.ExplicitComponent):
+                def initialize(self):
+                    self.options.declare('n', default=5)
+
+                def setup(self):
+                    self.add_output('y', np.arange(1.0, self.options['n'] + 1))
+
+                def compute(self, inputs, outputs):
+                    outputs['y'] = np.arange(1.0, self.options['n'] + 1)
+
+            class D(om.ExplicitComponent):
+                def setup(self):
+                    self.add_input('x', shape_by_conn=True)
+                    self.add_output('o', 0.0)
+
+                def compute(self, inputs, outputs):
+                    seen['d'] = np.array(inputs['x'])
+            p = om.Problem(reports=False)
+            src = p.model.add_subsystem('s', Src(n=5))
+            g = p.model.add_subsystem('g', om.Group())
+            g.add_subsystem('d', D())
+            if chain2 is not None:
+                g.promotes('d', inputs=['x'], src_indices=chain2)
+            else:
+                g.promotes('d', inputs=['x'])
+            if how == 'connect':
+                p.model.connect('s.y', 'g.x', src_indices=spec)
+            else:
+                p.model.promotes('g', inputs=[('x', 'xx')], src_indices=spec)
+                p.model.connect('s.y', 'xx')
+            for nsrc in (5, 8, 6):
+                src.options['n'] = nsrc
+                p.setup()
+                p.run_model()
+                if seen['d'].shape != want(nsrc).shape or not np.array_equal(seen['d'], want(nsrc)):
+                    fails.append(dict(desc, kind='input differs from the indexed source value after a later setup', source_size=nsrc, seen=seen['d'].tolist(), expected=want(nsrc).tolist()))
+                    break
+        except Exception as e:      # noqa
+            fails.append(dict(desc, kind='exception', error='%s: %s' % (type(e).__name__, str(e)[:200])))
+    for spec in specs:
+        n += 1
+        seen = {}
+        desc = dict(history='one promotes() call for two inputs with sources of size 5 and 8', src_indices=repr(spec))
+        try:
+            class C2(om.ExplicitComponent):
+                def setup(self):
+                    self.add_input('x', shape_by_conn=True)
+                    self.add_input('z', shape_by_conn=True)
+                    self.add_output('o', 0.0)
+
+                def compute(self, inputs, outputs):
+                    seen['x'] = np.array(inputs['x'])
+                    seen['z'] = np.array(inputs['z'])
+            p = om.Problem(reports=False)
+            ivc = p.model.add_subsystem('ivc', om.IndepVarComp(), promotes=['*'])
+            ivc.add_output('x', np.arange(1.0, 6.0))
+            ivc.add_output('z', np.arange(10.0, 18.0))
+            g = p.model.add_subsystem('g', om.Group(), promotes=['*'])
+            g.add_subsystem('c', C2())
+            g.promotes('c', inputs=['x', 'z'], src_indices=spec)
+            p.setup()
+            p.run_model()
+            ix = spec if not isinstance(spec, list) else np.array(spec)
+            for nm, base in (('x', np.arange(1.0, 6.0)), ('z', np.arange(10.0, 18.0))):
+                if not np.array_equal(seen[nm], base[ix]):
+                    fails.append(dict(desc, kind='input differs from the indexed source value (index object shared between inputs)', input=nm, seen=seen[nm].tolist(), expected=base[ix].tolist()))
+                    break
+        except Exception as e:      # noqa
+            fails.append(dict(desc, kind='exception', error='%s: %s' % (type(e).__name__, str(e)[:200])))
+    return fails, n
 
 
 def extras():
